@@ -588,6 +588,103 @@ def r10(ctx, r):
                  okdesc="in-flight mark written by collect and tested by cancel")
 
 
+def r11(ctx, r):
+    """Wheel: (a) 'not before its deadline (up to one tick early)': an entry's position in the wheel is relative to a tick counter
+    that lags the clock while advance() catches up and wraps for delays beyond a level's range, so position alone never proves an
+    entry due — every hand-out to the fire list is behind a test of the entry's own deadline against `now`; (b) a loop that may
+    re-insert entries (insertEntry) walks a DETACHED chain, or a re-inserted entry landing in the same bucket is visited again
+    (two such entries hand each other over forever, under the wheel mutex)."""
+    from ..finite import dominating_facts
+    fb = ctx.fb()
+    nh = 0
+    for f in fb.methods_of(TW):
+        if not f.ok:
+            continue
+        outs = [p_["n"] for p_ in f.params if "vector" in p_["t"] and "pair" in p_["t"]]
+        hands = [e for e in f.stmts() if e.node.get("k") == "mcall" and last(e.node.get("callee", "")) in ("emplace_back", "push_back") and strip_casts(e.node.get("obj") or {}).get("n") in outs]
+        for h in hands:
+            nh += 1
+            r.instance()
+            facts = dominating_facts(f, h)
+            dl = [(c, t) for (c, t) in facts if any(x.get("k") == "member" and x["n"] == TW + "::TimerEntry::deadline" for x in walk(c)) and any(x.get("k") == "var" and x.get("parm") is not None for x in walk(c))]
+            ok = False
+            for (c, t) in dl:
+                co = common.cmp_oriented(c, lambda x: not any(y.get("k") == "member" and y["n"] == TW + "::TimerEntry::deadline" for y in walk(x)))
+                if not co:
+                    continue
+                op = co[0]
+                # deadline OP bound: due means deadline <= bound (true edge) or !(deadline > bound) (false edge)
+                if (op in ("<=", "<") and t) or (op in (">", ">=") and not t):
+                    ok = True
+            r.expect(ok, f, h, "fired without a deadline test", "%s hands an entry to the fire list without having compared its deadline with the current time (known: %s): its bucket position was computed from a tick "
+                     "counter that lags the clock during a catch-up advance() and wraps for delays beyond the level's range, so the handler can start many ticks before its deadline" % (
+                         short(f.name), "; ".join(("" if t else "!") + show(c)[:40] for c, t in facts[-3:]) or "nothing"), okdesc="%s: hand-out behind deadline <= now(+tick)" % short(f.name))
+        # (b)
+        ins = [e for e in f.stmts() if e.node.get("k") == "mcall" and e.node.get("callee") == TW + "::insertEntry"]
+        loops = [b for b in f.blocks.values() if b.term and b.term.get("k") in ("WhileStmt", "ForStmt") and b.cond is not None]
+        for lb in loops:
+            inside = [e for e in ins if search(f, ("block", lb.succs[0]), lambda x, e=e: x is e, stop=lambda x, lb=lb: x.block is lb, eh=False) is not None]
+            if not inside:
+                continue
+            r.instance()
+            # the cursor variable of the loop and where its first value comes from
+            cv = [x for x in walk(lb.cond) if x.get("k") == "var"]
+            src = None
+            for e in f.stmts():
+                if e.node.get("k") == "decl":
+                    for dv in e.node["vars"]:
+                        if cv and dv["d"] == cv[0].get("d") and dv.get("init") is not None:
+                            src = dv["init"]
+            base = None
+            for x in walk(src or {}):
+                if x.get("k") == "var":
+                    base = x
+            detached = base is not None and "Bucket" in (base.get("t") or "") and "&" not in (base.get("t") or "")
+            r.expect(detached, f, inside[0], "re-insertion while walking a live bucket", "%s re-inserts entries (insertEntry) while iterating `%s`, which is a bucket of the wheel itself, not a detached copy: an entry whose "
+                     "remaining delay wraps round the level lands in the very bucket being walked and is visited again — two such entries hand each other over forever under _wheelMutex (tick thread spins, no timer fires, "
+                     "every call and the destructor block)" % (short(f.name), show(src or {})[:30]), okdesc="%s: walks a detached chain" % short(f.name))
+    if nh < 2:
+        raise AnalysisBroken("TimingWheel: only %d hand-out sites found" % nh)
+
+
+def r12(ctx, r):
+    """Service: (a) a cancellation is final — `canceled` is only ever set, never cleared (a drain that times out must not revive
+    what the user cancelled); (b) a periodic record is re-armed `interval` later: registration refuses interval <= 0, or the re-armed
+    record is due again at once and collect loops forever under the mutex."""
+    fb = ctx.fb()
+    nw = 0
+    for f in fb.in_file(TSF):
+        if not f.ok:
+            continue
+        for fld in (TS + "::Record::canceled", TS + "::PeriodicTimer::canceled"):
+            for (e, n, k) in common.field_writes(f, fld):
+                nw += 1
+                r.instance()
+                v = common.assigned_value(f, n)
+                r.expect(v is not None and const_value(v) == 1, f, e, "cancellation undone", "%s writes %s with `%s`: a timer whose cancel() reported success fires after all (its record and heap entry are still in place)"
+                         % (short(f.name), short(fld), show(v or {})[:30]), okdesc="%s: %s = true" % (short(f.name), last(fld)))
+    if nw < 4:
+        raise AnalysisBroken("only %d writes of the canceled flags found" % nw)
+    sp = tsf(ctx, "schedulePeriodic")
+    ins = common.member_calls_on(sp, TS + "::_periodicTimers", ("emplace", "insert", "try_emplace", "insert_or_assign"))
+    ins += [e for e in sp.stmts() if e.node.get("k") in ("opcall", "bin") and e.node.get("op") == "=" and
+            (access_path(e.node["args"][0] if e.node["k"] == "opcall" else e.node["lhs"]) or ("", ""))[-2:] == (TS + "::_periodicTimers", "[]")]
+    if not ins:
+        raise AnalysisBroken("schedulePeriodic: registration not found")
+    from ..finite import dominating_facts
+    ipar = [p_["n"] for p_ in sp.params if "duration" in p_["t"].lower() or p_["n"] == "interval"]
+    for e in ins:
+        r.instance()
+        ok = False
+        for (c, t) in dominating_facts(sp, e):
+            co = common.cmp_oriented(c, lambda x: not any(y.get("k") == "var" and y.get("n") in ipar for y in walk(x)))
+            if co and any(y.get("k") == "var" and y.get("n") in ipar for y in walk(co[1])) and ("zero" in show(co[2]) or const_value(strip_casts(co[2])) == 0 or "duration(0" in show(co[2])):
+                if (co[0] in ("<=",) and not t) or (co[0] in (">",) and t):
+                    ok = True
+        r.expect(ok, sp, e, "non-positive period accepted", "schedulePeriodic registers the timer without having refused interval <= 0: collectDueLocked re-arms the record at nextExecution += interval, i.e. at or before the "
+                 "time it just fired, finds it due again and loops forever under _mutex — the handler never runs, cancel/stop/the destructor block", okdesc="registration only for interval > 0")
+
+
 def run(ctx, ck):
     ck.run_rule("C08-R1", "lock tables of the timer service and the timing wheel", "A1 guarded-by", lambda r: r1(ctx, r))
     ck.run_rule("C08-R2", "collect erases before hand-out and only non-cancelled; wheel unlinks+erases before firing", "A5 + A2", lambda r: r2(ctx, r))
@@ -598,4 +695,6 @@ def run(ctx, ck):
     ck.run_rule("C08-R6", "stop/drain join the worker before clearing state", "A2", lambda r: r6(ctx, r))
     ck.run_rule("C08-R9", "a stopped service / wheel never accepts: stop() ends with the accepting flag false on every path", "A5 with call summaries (may re-open)", lambda r: r9(ctx, r))
     ck.run_rule("C08-R10", "a firing handed out of the lock can no longer be cancelled 'successfully'", "A2 path rule + mark/test agreement between collect and cancel", lambda r: r10(ctx, r))
+    ck.run_rule("C08-R11", "wheel: every hand-out is behind a test of the entry's deadline; re-inserting loops walk a detached chain", "A5 dominating facts + dataflow of the loop cursor", lambda r: r11(ctx, r))
+    ck.run_rule("C08-R12", "service: cancellation is final (flag only set); periodic registration refuses a non-positive interval", "A10 who-may-write value rule + A5", lambda r: r12(ctx, r))
     ck.run_rule("C08-R7", "condition-variable discipline (drain CV, tick CV)", "A1", lambda r: r7(ctx, r))
